@@ -1,6 +1,19 @@
 package props
 
-import "math"
+import (
+	"flag"
+	"math"
+	"strconv"
+	"testing"
+
+	"pgregory.net/rapid"
+)
 
 func mathFloat32bits(f float32) uint32 { return math.Float32bits(f) }
 func mathFloat64bits(f float64) uint64 { return math.Float64bits(f) }
+
+// rapidCheckN runs rapid.Check with n cases.
+func rapidCheckN(t *testing.T, n int, f func(*rapid.T)) {
+	_ = flag.Set("rapid.checks", strconv.Itoa(n))
+	rapid.Check(t, f)
+}
